@@ -70,7 +70,8 @@ M.contract(F, "filter_config", params=dict(acl=Acl, fmtr=Fmt, input_config=Input
            canaries=["result == input_config"], properties=["C06"],
            note="a text is parsed with the vendor's splitter, filtered in LENIENT mode (fatal_acl=False) and rendered again")
 M.contract(F, "filter_patch", params=dict(acl=Acl, fmtr=Fmt, text=STR), ret=STR,
-           ensures=["result == fjoin(fmtr, aacl(parse(text, split_of(fmtr)), acl))"], canaries=["result == text"], properties=["C06"])
+           ensures=["result == fjoin(fmtr, aacl(parse(text, split_of(fmtr)), acl))"], canaries=["result == text"], properties=["C06"],
+           inputs=lambda: (dict(acl=c["acl"], fmtr=c["fmtr"], text=c["input_config"]) for c in _fc_inputs()), native_frame_skip=["acl"])
 _q = {c.qual: c for c in M.contracts}
 _q["filter_config"].calls["tabparser.parse_to_tree"] = _q["<parse_to_tree>"]
 _q["filter_config"].calls["patching.apply_acl"] = _q["<apply_acl>"]
